@@ -111,3 +111,19 @@ Proof.
   - apply filter_comm.
 Qed.
 End Order.
+
+(** provenance for a whole drawing: every accepted fragment and every fragment of a contact
+    group is made of cells of the drawing, and of at least one *)
+Theorem endorse_cells_from_cells cells acc groups : endorse_cells cells = Ok (acc, groups) ->
+  Forall (from_cells cells) acc /\ Forall (Forall (from_cells cells)) groups.
+Proof.
+  apply (endorse_cells_R cells (fun _ _ => True) (from_cells cells)); auto.
+  - intros e f Ie _. split; [discriminate|]. intros x [<-|[]]. exact Ie.
+  - intros a b c M [Na Ia] [Nb Ib]. unfold fragspan_merge in M. destruct (fragment_merge (fs_frag a) (fs_frag b)); inversion M; subst; cbn.
+    split; [destruct (fs_span a); [congruence|discriminate]|apply incl_app; assumption].
+  - intros s' fs un Sub E. eapply shapes_from_cells; eauto.
+  - intros c f Nc Fc _. unfold from_cells; cbn [fs_span]. destruct c as [|f0 t]; [congruence|]. inversion Fc as [|? ? [N0 I0] Ft]; subst. split.
+    + unfold contacts_span; cbn [flat_map]. destruct (fs_span f0); [congruence|discriminate].
+    + intros x Hx. unfold contacts_span in Hx. apply in_flat_map in Hx. destruct Hx as [g [Ig Hx]].
+      rewrite Forall_forall in Fc. destruct (Fc g Ig) as [_ Sub]. apply Sub. exact Hx.
+Qed.
